@@ -78,6 +78,23 @@ func clSyncWhileLeaving(hist []string, m string) bool {
 	return false
 }
 
+// clCrashedAfterRejoin: m left (or was force-left), was restarted and then crashed.
+func clCrashedAfterRejoin(hist []string, m string) bool {
+	stage := 0
+	for _, a := range hist {
+		f := strings.Fields(a)
+		switch {
+		case stage == 0 && ((f[0] == "leave" && f[1] == m) || (f[0] == "forceleave" && f[2] == m)):
+			stage = 1
+		case stage == 1 && f[0] == "restart" && f[1] == m:
+			stage = 2
+		case stage == 2 && f[0] == "crash" && f[1] == m:
+			return true
+		}
+	}
+	return false
+}
+
 // clForceLeft: the history contains a force-leave of member m, or m's graceful leave followed by its restart.
 func clForceLeft(hist []string, m string) bool {
 	for _, a := range hist {
@@ -154,6 +171,14 @@ func clusterRun(ctx *vc.Ctx, faults bool) {
 				// was unreachable; the left-list of a push/pull carries that leave as status
 				// time + 1, which equals the Lamport time of the member's refuting join
 				ctx.Violation(scn, "truth=alive reported=leaving: a left-list entry (status time + 1) collides with the member's refuting/rejoin time", fmt.Sprintf("shortest history: %v\n%s", hist, v.Message), map[string]interface{}{"scenario": scn, "history": hist})
+				return
+			}
+			if class == "truth=failed reported=left" && clCrashedAfterRejoin(eff, member) {
+				// third recorded finding, same mechanism as the second: the member left (or was force-left),
+				// came back as a new incarnation and crashed; a node that never saw the new incarnation
+				// alive still lists the old one as left, every state sync re-stamps that tombstone at
+				// status time + 1, and it overrides the "failed" recorded by the nodes that did see it
+				ctx.Violation(scn, "truth=failed reported=left: the left-list tombstone of the member's previous incarnation (status time + 1 at every sync) overrides the failure of its new incarnation", fmt.Sprintf("shortest history: %v (start state: %v)\n%s", hist, clPreHist(scn), v.Message), map[string]interface{}{"scenario": scn, "history": hist})
 				return
 			}
 			if class == "truth=left reported=failed" && clSyncWhileLeaving(eff, member) {
